@@ -50,6 +50,7 @@ func c15Streams(binary, big bool) []c15Stream {
 	add("set-then-quit", o(wire.Cmd{Kind: wire.Set, Key: "ka", Value: val}), o(wire.Cmd{Kind: wire.Quit}), o(wire.Cmd{Kind: wire.Set, Key: "ka", Value: []byte("after quit")}))
 	if binary {
 		add("gat", o(wire.Cmd{Kind: wire.Gat, Key: "ka", Exptime: 100}))
+		add("quitq", o(wire.Cmd{Kind: wire.Set, Key: "ka", Value: val, Quiet: true}), o(wire.Cmd{Kind: wire.Quit, Quiet: true}), o(wire.Cmd{Kind: wire.Noop}))
 		add("gete", o(wire.Cmd{Kind: wire.GetE, Keys: []string{"ka"}}))
 		add("gete-multi", o(wire.Cmd{Kind: wire.GetE, Keys: []string{"kb", "kn", "ka"}, NoopEnd: true}))
 		add("quiet-get-batch-noop", o(wire.Cmd{Kind: wire.Get, Keys: []string{"ka", "kn", "kb"}, NoopEnd: true}))
